@@ -21,6 +21,9 @@ pub mod dh {
     #[no_mangle] #[inline(never)] pub fn vp_x_static_dh(s: &[u8; 32], p: &[u8; 32]) -> [u8; 32] { StaticSecret::from(*s).diffie_hellman(&PublicKey::from(*p)).to_bytes() }
     #[cfg(feature = "static_secrets")]
     #[no_mangle] #[inline(never)] pub fn vp_x_public_from_static(s: &[u8; 32]) -> [u8; 32] { PublicKey::from(&StaticSecret::from(*s)).to_bytes() }
+    #[cfg(feature = "reusable_secrets")]
+    #[no_mangle] #[inline(never)] pub fn vp_x_public_from_reusable(s: &[u8; 32]) -> [u8; 32] { PublicKey::from(&ReusableSecret(*s)).to_bytes() }
+    #[no_mangle] #[inline(never)] pub fn vp_x_public_from_ephemeral_bytes(s: &[u8; 32]) -> [u8; 32] { PublicKey::from(&EphemeralSecret(*s)).to_bytes() }
     #[no_mangle] #[inline(never)] pub fn vp_x_was_contributory(s: &[u8; 32]) -> bool { SharedSecret(curve25519_dalek::montgomery::MontgomeryPoint(*s)).was_contributory() }
 }
 
